@@ -34,6 +34,11 @@ open Cherab.Props.C18 Cherab.Props.C18Real
 #print axioms reported_eq
 #print axioms obs_congr
 #print axioms history_eq_fresh
+#print axioms ctor_params_ok
+#print axioms history_agrees_ok
+#print axioms ctor_succeeds
+#print axioms fresh_constructible
+#print axioms history_eq_fresh_total
 #print axioms uncovered_setter_goes_stale
 -- histories (generic invalidation theory)
 #print axioms covered_of_table
